@@ -151,6 +151,22 @@ def eval_case(c):
             fa = cm.convection(np.array([dT, dT * 2]), np.array([visc, visc]), k, kappa, alpha, L, g, rho, ca, cb, rac)[0]
             if not close(fa[0], f, 4):
                 V('cooling-array', 'array call differs from scalar call', **tag)
+            # whole-number inputs given as Python ints / numpy integers are the same physical values as their float twins
+            if d % 4 == 0:
+                Li = int(round(10 ** rng.uniform(3, 6.8)))
+                dTi = int(round(dT)) + 1
+                ref_i = cm.convection(float(dTi), visc, k, kappa, alpha, float(Li), g, rho, ca, cb, rac)[0]
+                refc_i = cm.conduction(float(dTi), k, float(Li))[0]
+                for label, a_, b_ in (('int', dTi, Li), ('numpy.int64', np.int64(dTi), np.int64(Li))):
+                    cnt['relations_evaluated'] += 2
+                    try:
+                        fi = cm.convection(a_, visc, k, kappa, alpha, b_, g, rho, ca, cb, rac)[0]
+                        fci = cm.conduction(a_, k, b_)[0]
+                    except Exception as ex:
+                        V('cooling-integer-input-raises', f'{label} temperature contrast / thickness raised {type(ex).__name__}: {str(ex)[:120]}', **tag)
+                        continue
+                    if not (close(fi, ref_i, 16) and close(fci, refc_i, 16)):
+                        V('cooling-integer-input-differs', f'convection / conduction with {label} contrast {dTi} and thickness {Li}: {float(fi)!r} / {float(fci)!r} but {float(ref_i)!r} / {float(refc_i)!r} with the same values as floats', **tag)
             o = cm.off(dT, L)[0]
             if o != 0:
                 V('cooling-off', f'off model flux {o!r}')
